@@ -188,11 +188,30 @@ def register_element_bind(db):
     db.add(Contract(f"{EL}.bind_content", variant="call-view", trusted=True, call_default=True, params={}, modifies=["params"],
                     raises={"ParserError": True, "ConverterError": True, "XmlContextError": True}))
     collab.field(db, "XmlMeta", "nillable", "bool")
+    NIL = "(self.xsi_nil is not None and self.xsi_nil)"
+    CF = "ParserConfig.class_factory"
     db.add(Contract(
         f"{EL}.bind", variant="object-construction",
         params={"self": element_node, "qname": "str", "text": "str|None", "tail": "str|None", "objects": "opaque:PyList"},
         ensures=[("always-succeeds-when-it-returns", "result == True"),
-                 ("the-object-is-queued-under-the-element-name", "called('PyList.append') >= 1")],
+                 ("the-object-is-queued-under-the-element-name", "called('PyList.append') >= 1 and call_arg('PyList.append', 0, 0)[0] == qname"),
+                 ("a-nil-element-of-a-non-nillable-class-binds-nothing",
+                  f"implies({NIL} and not self.meta.nillable, called('{CF}') == 0 and called('ElementNode.bind_attrs') == 0 and called('ElementNode.bind_content') == 0)"),
+                 ("otherwise-attributes-and-content-are-bound-into-the-parameters-the-object-is-built-from",
+                  f"implies(not ({NIL} and not self.meta.nillable), called('ElementNode.bind_attrs') == 1 and called('ElementNode.bind_content') == 1 and "
+                  f"called('{CF}') == 1 and returned('{CF}') == 1 and call_arg('{CF}', 0) is self.meta.clazz and "
+                  f"call_arg('{CF}', 1) is call_arg('ElementNode.bind_attrs', 1) and call_arg('{CF}', 1) is call_arg('ElementNode.bind_content', 1) and "
+                  f"call_arg('ElementNode.bind_content', 2) == text and call_arg('ElementNode.bind_content', 4) is objects)"),
+                 ("a-derived-element-factory-wraps-the-object-under-the-element-name-with-its-xsi-type",
+                  "ite(uf('truthy_Any', 'bool', self.derived_factory), called('Any.__call__') == 1 and call_recv('Any.__call__') is self.derived_factory and "
+                  "call_kwarg('Any.__call__', 'qname') == qname and call_kwarg('Any.__call__', 'type') == self.xsi_type and "
+                  "call_arg('PyList.append', 0, 0)[1] is call_result('Any.__call__'), called('Any.__call__') == 0)"),
+                 ("without-a-derived-wrapper-the-built-object-itself-is-queued",
+                  f"implies(not ({NIL} and not self.meta.nillable) and called('Any.__call__') == 0, call_arg('PyList.append', 0, 0)[1] is call_result('{CF}'))"),
+                 ("a-tail-that-was-not-consumed-is-queued-after-the-object",
+                  "implies(not self.tail_processed and not (tail is None or py_strip(tail) == ''), called('PyList.append') == 2 and "
+                  "call_arg('PyList.append', 0, 1)[0] is None and call_arg('PyList.append', 0, 1)[1] == tail) and "
+                  "implies(self.tail_processed or tail is None or py_strip(tail) == '', called('PyList.append') == 1)")],
         raises={"ParserError": True, "ConverterError": True, "XmlContextError": True},
         properties=["C15", "C10"],
         note="class_factory is an assumed collaborator that may raise TypeError (missing / unexpected constructor argument)",
@@ -234,14 +253,32 @@ def register_leaf_nodes(db):
                f"called('{PV}') == 1 and call_arg('{PV}', 1) is self.meta and call_arg('{PV}', 2) is self.var and "
                f"call_arg('{PV}', 3) is self.config and call_arg('{PV}', 4) == text and call_arg('{PV}', 5) is self.ns_map"),
               ("the-value-is-queued-under-the-element-name", "called('PyList.append') >= 1 and call_arg('PyList.append', 0, 0)[0] == qname")]
-    db.add(Contract(f"{NODES}.primitive:PrimitiveNode.bind", params={"self": primitive, **ARGS}, ensures=COMMON,
+    R = f"call_result('{PV}')"
+    Q = "call_arg('PyList.append', 0, 0)[1]"
+    BLANK_TAIL = "(tail is None or py_strip(tail) == '')"
+    PRIM = COMMON + [
+        ("a-converted-value-is-queued-as-it-is", f"implies({R} is not None, {Q} is {R})"),
+        ("an-empty-nillable-leaf-is-none", f"implies({R} is None and self.var.nillable, {Q} is None)"),
+        ("an-empty-leaf-is-the-empty-string-or-empty-bytes",
+         f"implies({R} is None and not self.var.nillable, {Q} == ite(uf('Types.has', 'bool', self.var.types, 'bytes'), b'', ''))"),
+        ("tail-text-is-queued-only-for-mixed-content",
+         f"called('PyList.append') == ite(self.meta.mixed_content and not {BLANK_TAIL}, 2, 1)")]
+    db.add(Contract(f"{NODES}.primitive:PrimitiveNode.bind", params={"self": primitive, **ARGS}, ensures=PRIM,
                     raises={"ParserError": True, "ConverterError": True}, properties=["C15", "C09"]))
     db.add(Contract(f"{NODES}.standard:StandardNode.bind", params={"self": standard, **ARGS},
                     ensures=COMMON + [("converted-as-the-xsi-type-datatype",
                                        f"call_arg('{PV}', 7)[0] is self.datatype.type and call_arg('{PV}', 9) == self.datatype.format"),
                                       # pre-condition of the wrapper classes (bytes subclasses: bytes(x) of a str is a TypeError)
                                       ("the-binary-wrapper-is-applied-only-to-a-value-of-the-datatype-python-type",
-                                       "implies(called('Wrapper.__call__') == 1, isinstance(call_arg('Wrapper.__call__', 0), self.datatype.type))")],
+                                       "implies(called('Wrapper.__call__') == 1, isinstance(call_arg('Wrapper.__call__', 0), self.datatype.type))"),
+                                      ("a-plain-value-is-queued-as-converted",
+                                       f"implies(called('Wrapper.__call__') == 0 and called('Any.__call__') == 0 and {R} is not None, {Q} is {R})"),
+                                      ("an-empty-nillable-value-is-none",
+                                       f"implies(called('Wrapper.__call__') == 0 and called('Any.__call__') == 0 and {R} is None and self.nillable, {Q} is None)"),
+                                      ("one-object-is-queued", "called('PyList.append') == 1"),
+                                      ("a-derived-element-factory-wraps-the-value-under-the-element-name",
+                                       f"ite(uf('truthy_Any', 'bool', self.derived_factory), called('Any.__call__') == 1 and call_recv('Any.__call__') is self.derived_factory "
+                                       f"and call_kwarg('Any.__call__', 'qname') == qname and {Q} is call_result('Any.__call__'), called('Any.__call__') == 0)")],
                     raises={"ParserError": True, "ConverterError": True}, properties=["C15", "C09"]))
 
 
@@ -262,7 +299,10 @@ def register_element_text(db):
                   f"implies(self.meta.text is not None and {NIL} and not {HAS_TEXT}, result == True and called('{PV}') == 0)"),
                  ("text-is-converted-once-in-the-element-own-scope",
                   f"implies(self.meta.text is not None and text is not None and not ({NIL} and not {HAS_TEXT}), result == True and called('{PV}') == 1 and "
-                  f"call_arg('{PV}', 2) is some(self.meta.text) and call_arg('{PV}', 3) is self.config and call_arg('{PV}', 4) == text and call_arg('{PV}', 5) is self.ns_map)")],
+                  f"call_arg('{PV}', 2) is some(self.meta.text) and call_arg('{PV}', 3) is self.config and call_arg('{PV}', 4) == text and call_arg('{PV}', 5) is self.ns_map)"),
+                 ("the-converted-text-is-stored-under-the-field-name-or-checked-against-the-fixed-value",
+                  f"implies(called('{PV}') == 1 and some(self.meta.text).init, some(self.meta.text).name in params and params[some(self.meta.text).name] is call_result('{PV}')) and "
+                  f"implies(called('{PV}') == 1 and not some(self.meta.text).init, called('ParserUtils.validate_fixed_value') == 1 and same_dict(params, old(params)))")],
         raises={"ParserError": True, "ConverterError": True}, returns="bool", modifies=["params"], properties=["C15", "C09"],
     ))
 
@@ -313,7 +353,7 @@ def register_bind_attr(db):
     PV, VF = "ParserUtils.parse_var", "ParserUtils.validate_fixed_value"
     db.add(Contract(
         f"{EL}.bind_attr", variant="converted-in-the-element-scope",
-        params={"self": element_node, "params": "dict[str,u:Any]", "var": "opaque:XmlVar", "value": "opaque:Any"},
+        params={"self": element_node, "params": "dict[str,u:Any|None]", "var": "opaque:XmlVar", "value": "opaque:Any"},
         ensures=[("converted-once-in-the-element-own-scope",
                   f"called('{PV}') == 1 and call_arg('{PV}', 1) is self.meta and call_arg('{PV}', 2) is var and call_arg('{PV}', 3) is self.config "
                   f"and call_arg('{PV}', 4) is value and call_arg('{PV}', 5) is self.ns_map"),
@@ -341,7 +381,10 @@ def register_bind_object(db):
     OTHER = f"({W} is not None and len({W}) > 0 and var.wrapper_qname != {W})"
     db.add(Contract(
         f"{EL}.bind_object", params={"self": element_node, "params": "opaque:PyDict", "qname": "str", "value": "opaque:Any"},
-        ensures=[("the-wrapper-the-child-came-in-is-looked-up-once", "called('ElementNode.pop_wrapper') == 1 and call_arg('ElementNode.pop_wrapper', 1) == qname")],
+        ensures=[("the-wrapper-the-child-came-in-is-looked-up-once", "called('ElementNode.pop_wrapper') == 1 and call_arg('ElementNode.pop_wrapper', 1) == qname"),
+                 ("true-only-when-a-field-took-the-object",
+                  f"implies(result == True, called('{BW}') == 1 or (called('{BV}') == 1 and call_result('{BV}') == True))"),
+                 ("false-only-when-the-search-ran-out", f"implies(result == False, called('{BW}') == 0 and called('{BV}') == 0)")],
         raises={"ParserError": True, "ConverterError": True}, returns="bool",
         loops=[Loop(invariants=[], header="self.meta.find_children(qname)",
                     step=[("a-field-of-another-wrapper-is-never-offered-the-object", f"implies({OTHER}, called('{BV}') == 0 and called('{BW}') == 0)"),
